@@ -13,10 +13,12 @@ import (
 	"net"
 	"net/http"
 	"runtime"
+	"runtime/debug"
 	"sync"
 	"time"
 
 	"verifharness/hx"
+	"verifharness/quicx"
 
 	"github.com/IrineSistiana/mosdns/v5/pkg/pool"
 	"github.com/IrineSistiana/mosdns/v5/pkg/upstream"
@@ -481,5 +483,209 @@ func DriveBatches(w *hx.Writer, o *hx.Opts, wrap func(string) string) {
 		}
 		lit, desc := Batch(r.Bool(), items)
 		w.Emit("id-batch", hx.Case{ID: id, Coq: wrap(lit), Desc: desc})
+	}
+}
+
+// ---------- DoQ: a failed stream write, then exchanges whose payload building is interleaved ----------
+
+// WriteFault runs, on ONE QUIC connection (quicx fakes under transport.NewQuicDnsConn):
+//  1. len(fails) exchanges one after the other whose stream.Write fails (stream reset by the peer, or a write
+//     deadline) -- each must return an error;
+//  2. the exchanges of items concurrently, scheduled through the streams' SetDeadline hook (the client calls
+//     it after it has built its payload and before it writes it): item 0 builds, item 1 builds, ... and only
+//     then the payloads are written, in writeOrder. The fake server answers on each stream the query that
+//     ARRIVED on that stream.
+//
+// All payloads are chosen by the caller to fall into one size class of the byte pool, so that a buffer the
+// failed exchange gave back wrongly (twice, or while still in use) is what the later exchanges build in.
+// One P and no GC while the case runs make sync.Pool hand buffers out in a fixed order; both settings are
+// restored on return. Returns the Judge.IdZero.wcase literal.
+func WriteFault(fails []*Item, failErrs []error, items []*Item, writeOrder []int) (string, map[string]any) {
+	prevP := runtime.GOMAXPROCS(1)
+	defer runtime.GOMAXPROCS(prevP)
+	prevGC := debug.SetGCPercent(-1)
+	defer debug.SetGCPercent(prevGC)
+
+	const wait = 30 * time.Second // nothing below depends on real time; this only bounds a client that hangs
+	for _, it := range fails {
+		it.q = mk(it.Qid, it.N, it.Seed)
+	}
+	for _, it := range items {
+		it.q = mk(it.Qid, it.N, it.Seed)
+		it.reply = mk(it.Rid, it.Rn, it.Rseed)
+	}
+	k := len(items)
+	var streams []*quicx.Stream
+	for i := range fails {
+		st := quicx.NewStream()
+		st.ID = quic.StreamID(4 * i)
+		st.WriteErr = failErrs[i%len(failErrs)]
+		streams = append(streams, st)
+	}
+	built := make([]chan struct{}, k)
+	turn := make([]chan struct{}, k)
+	written := make([]chan struct{}, k)
+	ist := make([]*quicx.Stream, k)
+	for j := 0; j < k; j++ {
+		j := j
+		built[j], turn[j], written[j] = make(chan struct{}), make(chan struct{}), make(chan struct{})
+		st := quicx.NewStream()
+		st.ID = quic.StreamID(4 * (len(fails) + j))
+		st.OnSetDeadline = func() {
+			close(built[j])
+			select {
+			case <-turn[j]:
+			case <-time.After(wait):
+			}
+		}
+		st.OnWritten = func() { close(written[j]) }
+		st.Reply = func(received []byte) io.Reader {
+			if len(received) < 2 || int(binary.BigEndian.Uint16(received)) != len(received)-2 {
+				return nil // not one whole frame: the server has nothing to answer
+			}
+			r := answerFor(items, received[2:])
+			f := make([]byte, 2+len(r))
+			binary.BigEndian.PutUint16(f, uint16(len(r)))
+			copy(f[2:], r)
+			return bytes.NewReader(f)
+		}
+		ist[j] = st
+		streams = append(streams, st)
+	}
+	dc := transport.NewQuicDnsConn(quicx.NewConn(streams...))
+	defer dc.Close()
+	ctx, cancel := context.WithTimeout(context.Background(), wait)
+	defer cancel()
+
+	// 1. the failing writes
+	nfailed := 0
+	for _, it := range fails {
+		rx, _ := dc.ReserveNewQuery()
+		if rx == nil {
+			continue
+		}
+		r, err := rx.ExchangeReserved(ctx, it.q)
+		if err != nil {
+			nfailed++
+		} else if r != nil {
+			pool.ReleaseBuf(r)
+		}
+	}
+
+	// 2. build, build, ..., then write in writeOrder
+	got := make([]*[]byte, k)
+	errs := make([]error, k)
+	var wg sync.WaitGroup
+	stuck := false
+	for j := 0; j < k; j++ {
+		rx, _ := dc.ReserveNewQuery()
+		if rx == nil {
+			errs[j] = fmt.Errorf("no stream")
+			close(built[j])
+			continue
+		}
+		wg.Add(1)
+		go func(j int) {
+			defer wg.Done()
+			got[j], errs[j] = rx.ExchangeReserved(ctx, items[j].q)
+		}(j)
+		select {
+		case <-built[j]:
+		case <-time.After(wait):
+			stuck = true
+		}
+	}
+	for _, j := range writeOrder {
+		close(turn[j])
+		select {
+		case <-written[j]:
+		case <-time.After(wait):
+			stuck = true
+		}
+	}
+	wg.Wait()
+
+	lits := make([]string, k)
+	es := []string{}
+	for j, it := range items {
+		wire, _ := ist[j].Written()
+		if len(wire) >= 2 {
+			wire = wire[2:] // strip the two byte length
+		}
+		if errs[j] != nil || got[j] == nil || len(*got[j]) < 2 || len(wire) < 2 {
+			lits[j] = "None"
+			es = append(es, fmt.Sprintf("%d: %v", j, errs[j]))
+			continue
+		}
+		g := *got[j]
+		lits[j] = hx.Some(hx.App("CId", "true", hx.Ni(int(it.Qid)), hx.Ni(it.N), hx.N(it.Seed), hx.Ni(int(it.Rid)), hx.Ni(it.Rn), hx.N(it.Rseed),
+			hx.Ni(int(binary.BigEndian.Uint16(wire))), hx.Ni(len(wire)-2), hx.N(hx.Sum(wire[2:])),
+			hx.Ni(int(binary.BigEndian.Uint16(g))), hx.Ni(len(g)-2), hx.N(hx.Sum(g[2:]))))
+	}
+	for j := range got {
+		if got[j] != nil {
+			pool.ReleaseBuf(got[j])
+		}
+	}
+	qlens := []int{}
+	for _, it := range items {
+		qlens = append(qlens, it.N+2)
+	}
+	return hx.App("CWf", hx.Ni(len(fails)), hx.Ni(nfailed), hx.List(lits)),
+		map[string]any{"doq": true, "failed_writes": len(fails), "concurrent": k, "write_order": writeOrder, "query_lens": qlens, "errors": es, "stuck": stuck}
+}
+
+// DriveWriteFault emits the failed-write-then-concurrent-exchanges cases.
+func DriveWriteFault(w *hx.Writer, o *hx.Opts, wrap func(string) string) {
+	n := o.Count(16, 300)
+	ids := []uint16{0, 1, 0xFFFF, 0x1111, 0xBEEF}
+	failErrs := [][]error{
+		{&quic.StreamError{StreamID: 0, ErrorCode: 0x2, Remote: true}}, // STOP_SENDING / reset by the peer
+		{quicx.TimeoutError{}},                                 // write deadline
+		{&quic.ApplicationError{Remote: true, ErrorCode: 0x1}}, // the connection went away
+	}
+	for i := 0; i < n; i++ {
+		id := fmt.Sprintf("idw:%d", i)
+		if !o.Want(id) {
+			continue
+		}
+		r := hx.NewRNG(o.Seed, id)
+		// one size class of the byte pool (capacity 2^bit - 1) for every payload (= query + 2 length bytes) of the case
+		bit := r.Range(6, 9)
+		lo, hi := 1<<(bit-1), 1<<bit-1 // payload lengths of the class
+		nf := 1
+		if i >= 2 {
+			nf = hx.Pick(r, []int{1, 1, 1, 2, 0})
+		}
+		k := 2
+		if i >= 2 && r.Chance(1, 4) {
+			k = 3
+		}
+		fails := make([]*Item, nf)
+		for j := range fails {
+			fails[j] = &Item{Qid: uint16(r.Intn(65536)), N: r.Range(lo, hi) - 4, Seed: r.U64() % 100000}
+		}
+		items := make([]*Item, k)
+		used := map[int]bool{}
+		for j := range items {
+			// distinct lengths per item so the fake server can tell the queries apart; ids may repeat
+			nq := r.Range(lo, hi) - 4
+			for used[nq] {
+				nq = r.Range(lo, hi) - 4
+			}
+			used[nq] = true
+			items[j] = &Item{Qid: hx.Pick(r, ids), N: nq, Seed: r.U64() % 100000, Rid: uint16(r.Intn(65536)), Rn: 15 + 40*j + r.Intn(30), Rseed: r.U64() % 100000}
+		}
+		if i < 2 { // the two fixed ones: caller ids 0xFFFF and 0, first builder writes first / last
+			items[0].Qid, items[1].Qid = 0xFFFF, 0
+		}
+		order := r.Perm(k)
+		if i == 0 {
+			order = []int{0, 1}
+		} else if i == 1 {
+			order = []int{1, 0}
+		}
+		lit, desc := WriteFault(fails, hx.Pick(r, failErrs), items, order)
+		w.Emit("id-wfault", hx.Case{ID: id, Coq: wrap(lit), Desc: desc})
 	}
 }
